@@ -16,6 +16,22 @@ def sh(cmd, cwd=None, timeout=3000):
     p = subprocess.run(cmd, cwd=cwd, env=ENV, shell=isinstance(cmd, str), stdout=subprocess.PIPE, stderr=subprocess.STDOUT, text=True, timeout=timeout)
     return p.returncode, "\n".join(l for l in p.stdout.splitlines() if "conda.cli" not in l)
 
+def save_outputs():
+    """evidence/ and replays/ describe the UNCHANGED tree; runs against a seeded change must not leave theirs behind"""
+    import tempfile
+    d = tempfile.mkdtemp(prefix="verif_saved_")
+    for sub in ("evidence", "replays"):
+        if os.path.isdir(os.path.join("/verif", sub)):
+            shutil.copytree(os.path.join("/verif", sub), os.path.join(d, sub))
+    return d
+
+def restore_outputs(d):
+    for sub in ("evidence", "replays"):
+        if os.path.isdir(os.path.join(d, sub)):
+            shutil.rmtree(os.path.join("/verif", sub), ignore_errors=True)
+            shutil.copytree(os.path.join(d, sub), os.path.join("/verif", sub))
+    shutil.rmtree(d, ignore_errors=True)
+
 def main():
     d = json.load(open("/verif/known_findings.json"))
     want = set(sys.argv[1:])
@@ -52,6 +68,7 @@ def main():
             if out.strip():
                 print("repo not clean"); sys.exit(2)
             sh(["git", "-C", "/repo", "apply", os.path.join(dst, "patch.diff")])
+            saved = save_outputs()
             try:
                 t0 = time.time()
                 rc, out = sh(["./check", prop, "--tier", "quick"], cwd="/verif")
@@ -62,6 +79,7 @@ def main():
                 meta["detected_by"] = [prop] if viol else []
             finally:
                 sh(["git", "-C", "/repo", "checkout", "--", "."]); sh(["git", "-C", "/repo", "clean", "-fd"])
+                restore_outputs(saved)
         else:
             meta["detected_by"] = []
             meta["error"] = "reverse patch does not apply cleanly on top of later fixes, or the suite fails"
